@@ -101,6 +101,9 @@ def catLine (path : Bytes) : Bytes := lineOf [.str (str "cat"), .str path]
 /-- `base64 <path>` -/
 def b64Line (path : Bytes) : Bytes := lineOf [.str (str "base64"), .str path]
 
+/-- `byte_data[-1:] in [b"\n", b"\r"]` -/
+def endsInNl (b : Bytes) : Bool := b.getLast? == some Tty.LF || b.getLast? == some Tty.CR
+
 /-! ### the remote side -/
 
 namespace Remote
@@ -115,6 +118,10 @@ def ttyRead : Bytes → Bytes → Option (Bytes × Bytes)
     else if c == EOT then
       if buf.isEmpty then some ([], cs) else (ttyRead [] cs).map fun (d, r) => (buf ++ d, r)
     else ttyRead (buf ++ [c]) cs
+
+/-- the `^D`s tbot types after the data `e` of a `tee` transfer: two unless `e` is empty or ends
+    with a line ending -/
+def fin (e : Bytes) : Bytes := (if !(e.isEmpty || endsInNl e) then [EOT] else []) ++ [EOT]
 
 /-- echo of typed bytes (ECHO on, ECHOCTL off): the EOF character is not echoed -/
 def echoTyped (typed : Bytes) : Bytes := Tty.echo false (typed.filter (· != EOT))
@@ -253,8 +260,6 @@ def terminate0 (px : Proxy) (a2 : List Bytes) (s : St) : ShRes (List Char) :=
     match fetchRetcode (feed a2 s) with
     | (.error e, s) => (.error e, s)
     | (.ok rc, s) => if rc = 0 then (.ok (text b), s) else (.error (.commandFailure rc), s)
-
-def endsInNl (b : Bytes) : Bool := b.getLast? == some Tty.LF || b.getLast? == some Tty.CR
 
 /-- the test for the `printf` fast path: single-line text without NUL -/
 def fastPath (data : Bytes) : Bool := !data.contains Tty.LF && !data.contains Tty.CR && !data.contains 0
